@@ -300,24 +300,25 @@ theorem sparse_zero (n? : Option Nat) :
     ∃ f, operatorMatrix [] n? = .ok (match n? with | none => 1 | some n => 2 ^ n, f) ∧ ∀ r c, f r c = Coef.zero :=
   ⟨fun _ _ => Coef.zero, rfl, fun _ _ => rfl⟩
 
-/-- Full statement wanted: every matrix `get_sparse_matrix` returns is the true Pauli matrix of its
-    label, whatever was done before.  Proved for histories that never scale a *shared* handle in place:
-    then the module's Pauli table is never changed and every handle is created with factor 1. -/
-theorem sparse_history_independent_partial (pre post : List SparseOp) (l : Label) (n : Nat)
-    (h : noSharedScale ⟨SparseTable.init, []⟩ (pre ++ post) = true) :
-    handleFactor ((SparseSession.run ⟨SparseTable.init, []⟩ pre).table)
-      (getLabel ((SparseSession.run ⟨SparseTable.init, []⟩ pre).table) l n) = 1 := by
-  rw [table_run_of_noShared _ pre (noShared_prefix _ pre post h)]
-  exact handleFactor_getLabel_init l n
+/-- Every matrix `get_sparse_matrix` returns is the true Pauli matrix of its label, whatever was done
+    before — earlier calls, and in-place operations of the callers on the matrices they received
+    (every call hands out a matrix of its own; the module's Pauli table is never changed). -/
+theorem sparse_history_independent (pre : List SparseOp) (l : Label) (n : Nat) :
+    (SparseSession.run ⟨SparseTable.init, []⟩ pre).table = SparseTable.init ∧
+    handleFactor (getLabel ((SparseSession.run ⟨SparseTable.init, []⟩ pre).table) l n) = 1 := by
+  rw [table_run]
+  exact ⟨rfl, handleFactor_getLabel_init l n⟩
 
-example : noSharedScale ⟨SparseTable.init, []⟩
-    [.get [(0, 1), (1, 2)] 2, .scale 0 3, .get [(0, 1)] 1, .get [(0, 3)] 2] = true := by decide
+/-- An in-place operation on one returned matrix changes no other returned matrix. -/
+theorem sparse_scale_is_local (s : SparseSession) (i j : Nat) (k : Int) (hij : i ≠ j) :
+    (s.step (.scale i k)).handles[j]? = s.handles[j]? :=
+  scale_other_handle s i j k hij
 
-/-- FINDING (key `sparse.single-qubit-label-returns-shared-table-entry`): `get_sparse_matrix` of a
-    one-qubit label on one qubit returns the module's own matrix object; after `m *= 2` every later
-    matrix containing that Pauli is wrong (here X⊗X comes out multiplied by 4). -/
-theorem sparse_shared_table_witness :
+/-- The history of the repaired defect (fix 60b9f57; formerly finding
+    `sparse.single-qubit-label-returns-shared-table-entry`): `m = get_sparse_matrix(X0)` on one qubit,
+    `m *= 2`, then `get_sparse_matrix(X0 X1)` is X⊗X itself (it used to come out multiplied by 4). -/
+theorem sparse_mutated_result_does_not_leak :
     let s := SparseSession.run ⟨SparseTable.init, []⟩ [.get [(0, 1)] 1, .scale 0 2]
-    getLabel s.table [(0, 1), (1, 1)] 2 = .fresh 4 [(0, 1), (1, 1)] 2 := by decide
+    s.handles = [.fresh 2 [(0, 1)] 1] ∧ getLabel s.table [(0, 1), (1, 1)] 2 = .fresh 1 [(0, 1), (1, 1)] 2 := by decide
 
 end QV.Props.C04
